@@ -139,6 +139,20 @@ func MethodDocLines(m *Method) []string {
 		for i, j := range idx {
 			out[i] = anns[j]
 		}
+		// @Security lines are alternatives in source order: keep their relative order as modelled
+		var secLines []string
+		for _, l := range anns {
+			if strings.HasPrefix(l, "// @Security(") {
+				secLines = append(secLines, l)
+			}
+		}
+		k := 0
+		for i, l := range out {
+			if strings.HasPrefix(l, "// @Security(") {
+				out[i] = secLines[k]
+				k++
+			}
+		}
 		anns = out
 	}
 	return append(lines, anns...)
